@@ -364,7 +364,11 @@ func runHistoryWith[G algebra.PrimeGroupElement[G, S], S algebra.PrimeFieldEleme
 	finish := func(v *harness.Violation) harness.Outcome {
 		class := fmt.Sprintf("history group=%s sign=%s ops=%s", kit.name, fl.name, strings.Join(opKinds(h.ops), ","))
 		sample := map[string]any{"workload": "history", "group": kit.name, "genesis": spec.desc, "operations": h.ops, "trace_head": head(h.trace, 8)}
-		return harness.Outcome{Violation: v, Class: class, NonTrivial: h.nontriv || len(h.ops) > 0, Trace: h.trace, Stats: h.stats, Probes: h.probes, Sample: sample}
+		dig := fmt.Sprint(h.ops)
+		if h.facts != nil {
+			dig += fmt.Sprintf("%x", h.facts.pkBytes)
+		}
+		return harness.Outcome{Violation: v, Class: class, NonTrivial: h.nontriv || len(h.ops) > 0, Trace: h.trace, Stats: h.stats, Probes: h.probes, Sample: sample, Digest: dig}
 	}
 	if v := h.checkEpoch(g, "genesis"); v != nil {
 		return finish(v)
